@@ -37,16 +37,18 @@ structure Agree (P : ThreadId → AppId → Prop) (S : Inst → Prop) (h h' : He
   next : ∀ u a, P u a → h.next u a = h'.next u a
   ncopies : ∀ u a, P u a → h.ncopies u a = h'.ncopies u a
   regs : ∀ u a r, P u a → h.regs u a r = h'.regs u a r
+  /-- the objects shared by all applications and threads are the same in both heaps -/
+  errs : h.errs = h'.errs
 
 theorem Agree.refl {P S} (h : Heap) : Agree P S h h :=
   ⟨fun _ _ _ _ => rfl, fun _ _ => rfl, fun _ _ _ => rfl, fun _ _ _ => rfl, fun _ _ => rfl,
-   fun _ _ _ => rfl, fun _ _ _ => rfl, fun _ _ _ _ => rfl⟩
+   fun _ _ _ => rfl, fun _ _ _ => rfl, fun _ _ _ _ => rfl, rfl⟩
 
 theorem Agree.symm {P S} {h h' : Heap} (g : Agree P S h h') : Agree P S h' h :=
   ⟨fun i u k p => (g.tls i u k p).symm, fun i s => (g.hasStore i s).symm,
    fun i k s => (g.slots i k s).symm, fun a u p => (g.hd a u p).symm,
    fun o p => (g.dicts o p).symm, fun u a p => (g.next u a p).symm,
-   fun u a p => (g.ncopies u a p).symm, fun u a r p => (g.regs u a r p).symm⟩
+   fun u a p => (g.ncopies u a p).symm, fun u a r p => (g.regs u a r p).symm, g.errs.symm⟩
 
 theorem Agree.trans {P S} {h1 h2 h3 : Heap} (g : Agree P S h1 h2) (g' : Agree P S h2 h3) :
     Agree P S h1 h3 :=
@@ -57,7 +59,7 @@ theorem Agree.trans {P S} {h1 h2 h3 : Heap} (g : Agree P S h1 h2) (g' : Agree P 
    fun o p => (g.dicts o p).trans (g'.dicts o p),
    fun u a p => (g.next u a p).trans (g'.next u a p),
    fun u a p => (g.ncopies u a p).trans (g'.ncopies u a p),
-   fun u a r p => (g.regs u a r p).trans (g'.regs u a r p)⟩
+   fun u a r p => (g.regs u a r p).trans (g'.regs u a r p), g.errs.trans g'.errs⟩
 
 /-- the same update applied to two agreeing heaps -/
 theorem Agree.apply {P S} {h h' : Heap} (g : Agree P S h h') (u : Upd) :
@@ -124,6 +126,9 @@ theorem Agree.apply {P S} {h h' : Heap} (g : Agree P S h h') (u : Upd) :
     split
     · rfl
     · exact g.regs _ _ _ p
+  | err e k v =>
+    refine { g with errs := ?_ }
+    simp only [Upd.apply, g.errs]
 
 theorem Agree.apply_all {P S} {h h' : Heap} (g : Agree P S h h') (us : List Upd) :
     Agree P S (applyAll h us) (applyAll h' us) := by
@@ -142,6 +147,7 @@ def Upd.outside (P : ThreadId → AppId → Prop) (S : Inst → Prop) : Upd → 
   | .next t a => ¬ P t a
   | .ncopies t a => ¬ P t a
   | .reg t a _ _ => ¬ P t a
+  | .err _ _ _ => False            -- shared by everybody: never outside a slice
 
 theorem Agree.outside {P S} (h : Heap) (u : Upd) (ho : u.outside P S) : Agree P S h (u.apply h) := by
   cases u with
@@ -214,6 +220,7 @@ theorem Agree.outside {P S} (h : Heap) (u : Upd) (ho : u.outside P S) : Agree P 
       obtain ⟨rfl, rfl, rfl⟩ := hc
       exact absurd p ho
     · rfl
+  | err e k v => exact absurd ho id
 
 theorem Agree.outside_all {P S} (h : Heap) (us : List Upd) (ho : ∀ u ∈ us, u.outside P S) :
     Agree P S h (applyAll h us) := by
@@ -304,6 +311,8 @@ theorem plan_agree {P S R} {h h' : Heap} (t : ThreadId) (a : AppId) (acc : Acces
   | dUpdate r src => simp only [plan, erd]
   | dCopy r dst => simp only [plan, erd, enx]
   | newCopy => simp only [plan, enc]
+  | errGet e k => simp only [plan, g.errs]
+  | errSet e k x => simp only [plan]
 
 theorem regDict_ok {h : Heap} {t : ThreadId} {a : AppId} {r : Reg} {o : Oid} {d : Dict}
     (hr : regDict h t a r = .ok (o, d)) : h.regs t a r = some (.dict o) := by
@@ -323,7 +332,7 @@ theorem regDict_ok {h : Heap} {t : ThreadId} {a : AppId} {r : Reg} {o : Oid} {d 
 /-- every update of a step of a context outside the slice lies outside the slice -/
 theorem plan_outside {P S R} {h : Heap} (t : ThreadId) (a : AppId) (acc : Access)
     (ow : Own R h) (hnp : ¬ P t a) (hS : ∀ o : Obj, ¬ S (o.inst t a))
-    (hRP : ∀ o, R t a o → ¬ P o.thread o.app) :
+    (hRP : ∀ o, R t a o → ¬ P o.thread o.app) (hsh : acc.sharedOk) :
     ∀ u ∈ (plan .perInstance t a h acc).1, u.outside P S := by
   have hreg : ∀ r o d, regDict h t a r = .ok (o, d) → ¬ P o.thread o.app := fun r o d hr =>
     hRP o (ow.regs t a r o (regDict_ok hr))
@@ -416,6 +425,10 @@ theorem plan_outside {P S R} {h : Heap} (t : ThreadId) (a : AppId) (acc : Access
   | newCopy =>
     simp only [plan]
     intro u hu; simp at hu; subst hu; exact hnp
+  | errGet e k =>
+    simp only [plan]
+    split <;> intro u hu <;> simp at hu
+  | errSet e k x => exact absurd hsh id
 
 /-! ### ownership is kept -/
 
@@ -463,6 +476,7 @@ theorem Own.apply {R} {h : Heap} (ow : Own R h) (u : Upd) (hk : u.keeps R) : Own
   | dict o d => exact { ow with }
   | next t a => exact { ow with }
   | ncopies t a => exact { ow with }
+  | err e k v => exact { ow with }
   | reg t a r v =>
     refine { ow with regs := ?_ }
     intro w b r' o
@@ -611,6 +625,12 @@ theorem plan_keeps {R} {h : Heap} (t : ThreadId) (a : AppId) (acc : Access) (ow 
   | newCopy =>
     simp only [plan]
     intro u hu; simp at hu; subst hu; trivial
+  | errGet e k =>
+    simp only [plan]
+    split <;> intro u hu <;> simp at hu
+  | errSet e k x =>
+    simp only [plan]
+    intro u hu; simp at hu; subst hu; trivial
 
 /-! ### the three facts about one step -/
 
@@ -624,9 +644,12 @@ theorem exec_own {R} {h : Heap} (t : ThreadId) (a : AppId) (acc : Access) (ow : 
 /-- a step of a context outside the slice leaves the slice alone -/
 theorem exec_frame {P S R} {h : Heap} (t : ThreadId) (a : AppId) (acc : Access)
     (ow : Own R h) (hnp : ¬ P t a) (hS : ∀ o : Obj, ¬ S (o.inst t a))
-    (hRP : ∀ o, R t a o → ¬ P o.thread o.app) :
+    (hRP : ∀ o, R t a o → ¬ P o.thread o.app) (hsh : acc.sharedOk) :
     Agree P S h (exec .perInstance t a acc h).1 :=
-  Agree.outside_all h _ (plan_outside t a acc ow hnp hS hRP)
+  Agree.outside_all h _ (plan_outside t a acc ow hnp hS hRP hsh)
+
+theorem Access.sharedOk_of_attrOk {acc : Access} (h : acc.attrOk) : acc.sharedOk := by
+  cases acc <;> first | trivial | exact h
 
 /-- a step of a context inside the slice: same result, agreement kept -/
 theorem exec_agree {P S R} {h h' : Heap} (t : ThreadId) (a : AppId) (acc : Access)
